@@ -330,8 +330,10 @@ def c07_d(ctx):
         fb_ok = True
         for n in own_nodes(f.node):
             if isinstance(n, ast.Assign) and any(ex.term(n.value) == o for o in others):
-                fb_ok = fb_ok and any(pol and contains(t, 'np.isfinite(_)')
-                                      for (t, pol, _) in ctx.guards(f, n))
+                fb_ok = fb_ok and any(
+                    (not pol) and match_any(t, ('np.all(np.isfinite(_))',
+                                                'np.isfinite(_).all()')) is not None
+                    for (t, pol, _) in ctx.guards(f, n))
         ctx.check(fb_ok, f, 'fallback covariance only when not finite', 'guarded by isfinite',
                   'the covariance is replaced although it is finite', fn=f, node=rr[0])
 
